@@ -189,7 +189,7 @@ def find_closures_calling(prog, parent_fn, callee_re, transitive=False):
 def executor(crate, models=(), **kw):
     prog, enums = mirdump.program(crate)
     # 'role:<pinned helper name>' = whatever function plays that helper's role in the current tree (NotFound -> inconclusive obligation)
-    models = [((role_fn(prog, p[5:], crate)[1] if isinstance(p, str) and p.startswith('role:') else p), f) for p, f in models]
+    models = [((role_fn(prog, p[5:], crate.split('@')[0])[1] if isinstance(p, str) and p.startswith('role:') else p), f) for p, f in models]
     ms = [(re.compile(p) if isinstance(p, str) else p, f) for p, f in models] + MD.GLOBAL_MODELS
     fixed = kw.pop('fixed_bounds', False)
     if not fixed:
